@@ -122,6 +122,9 @@ def instances(tier, seed):
                 for when in ('before', 'after'):
                     add(spec=fam.with_horizon(base, H[(N + M) % len(H)]), guesses=gset, when=when,
                         cfg=Cfg(method, N=N, M=M, intg=intg or 'rk', grid=grids[N % len(grids)], degree=2, scheme='radau'))
+    for method in ('MS', 'DC'):
+        for when in ('before', 'after'):
+            add(kind='alias', method=method, when=when)
     # guesses for free t0/T through set_initial, in every order relative to the time-expression guesses and to the transcription
     Hfree = [h for h in H if h[0][0] == 'free' or h[1][0] == 'free']
     n = 0
@@ -159,7 +162,53 @@ class ValueLog:
         ca.OptiAdvanced.value = self.orig
 
 
+def run_alias(item):
+    """GROUND: the horizon assigned through set_T(variable) has two names (the variable and ocp.T); the last set_initial call wins,
+    whichever name it uses, before and after the first transcription"""
+    from ..extract import Ocp, MultipleShooting, DirectCollocation
+    viol, proved = [], []
+    for order in ('var-then-T', 'T-then-var'):
+        with quiet():
+            ocp = Ocp()
+            x = ocp.state()
+            u = ocp.control()
+            ocp.set_der(x, u)
+            Tv = ocp.variable()
+            ocp.set_T(Tv)
+            ocp.subject_to(Tv >= 0.1)
+            ocp.subject_to(ocp.at_t0(x) == 0)
+            ocp.add_objective(ocp.integral(u * u) + ocp.T)
+            ocp.solver('ipopt')
+            ocp.method(MultipleShooting(N=3) if item['method'] == 'MS' else DirectCollocation(N=2))
+            if item['when'] == 'after':
+                ocp._transcribed
+            calls = [(Tv, 1.25), (ocp.T, 2.5)] if order == 'var-then-T' else [(ocp.T, 2.5), (Tv, 1.25)]
+            for sym, val in calls:
+                ocp.set_initial(sym, val)
+            ocp.set_initial(x, 2 * ocp.t)
+            ocp._transcribed
+            opti = ocp._method.opti
+            got = float(opti.debug.value(ocp.value(ocp.T), opti.initial()))
+            xs = [float(v) for v in np.array(opti.debug.value(ocp.sample(x, grid='control')[1], opti.initial())).flatten()]
+        want = calls[-1][1]
+        if not close(got, want):
+            viol.append({'property': PROP, 'key': 'last-call-wins:alias|%s|%s' % (item['method'], item['when']), 'label': order, 'cfg': item['method'], 'spec': 'set_T(variable)',
+                         'detail': 'guesses %s then %s for the same horizon (two names): the starting value is %r, the last call gave %r' % (calls[0][1], calls[1][1], got, want)})
+        elif not close(xs[-1], 2 * want):
+            viol.append({'property': PROP, 'key': 'alias-guess-times|%s|%s' % (item['method'], item['when']), 'label': order, 'cfg': item['method'], 'spec': 'set_T(variable)',
+                         'detail': 'state guess 2*t at the final node starts at %r, the guessed horizon %r implies %r' % (xs[-1], want, 2 * want)})
+        else:
+            proved.append('last call wins for the two names of the horizon (%s, %s, %s)' % (order, item['method'], item['when']))
+    res = {'stats': {}, 'obligations': len(proved) + len(viol), 'discharged': len(proved), 'nontrivial': proved, 'violations': viol, 'shape': 'alias %s %s' % (item['method'], item['when']),
+           'sample': {'kind': 'alias (ground)', 'method': item['method'], 'when': item['when']}}
+    if viol:
+        res['status'] = 'violation'
+    return res
+
+
 def run(item):
+    if item.get('kind') == 'alias':
+        return run_alias(item)
     spec0, cfg, guesses, when = item['spec'], item['cfg'], item['guesses'], item['when']
     N, M = cfg.N, cfg.M
     viol = []
